@@ -79,6 +79,8 @@ type Config struct {
 	// Alphabet lists the steps enabled in a state reached by path.
 	Alphabet func(w *hx.World, hist []*rspb.Release, path []Step) []Step
 	MaxDepth int
+	// DepthFor, when set, overrides MaxDepth per initial state.
+	DepthFor func(init string) int
 	// MaxFaulty bounds the number of faulty steps on a path.
 	MaxFaulty int
 	// FaultKinds lists the fault kinds to inject at a call of an operation.
@@ -218,10 +220,16 @@ func (cfg *Config) Run(c *core.Ctx) {
 				seen := map[uint64]struct{}{}
 				var frontier []node
 				cfg.expandStep(c, drv, init, node{w: w0, hist: h0}, st, seen, &frontier)
+				maxDepth := cfg.MaxDepth
+				if cfg.DepthFor != nil {
+					if d := cfg.DepthFor(init); d > 0 {
+						maxDepth = d
+					}
+				}
 				for len(frontier) > 0 {
 					n := frontier[0]
 					frontier = frontier[1:]
-					if len(n.path) >= cfg.MaxDepth {
+					if len(n.path) >= maxDepth {
 						continue
 					}
 					for _, st2 := range cfg.Alphabet(n.w, n.hist, n.path) {
